@@ -10,3 +10,6 @@ if [ ! -x "$V/work/bin/gotrans" ] || [ -n "$(find "$V/gotrans" -name '*.go' -new
 fi
 "$V/work/bin/gotrans" "$REPO" "$V/gotrans/targets.json" "$V/coq/gen/Gen.v.new"
 if ! cmp -s "$V/coq/gen/Gen.v.new" "$V/coq/gen/Gen.v" 2>/dev/null; then mv "$V/coq/gen/Gen.v.new" "$V/coq/gen/Gen.v"; else rm -f "$V/coq/gen/Gen.v.new"; fi
+# lock / channel skeletons of the core packages (gotrans locktrace): coq/gen/GenLocks.v
+"$V/work/bin/gotrans" locktrace "$REPO" "$V/gotrans/locks.json" "$V/coq/gen/GenLocks.v.new"
+if ! cmp -s "$V/coq/gen/GenLocks.v.new" "$V/coq/gen/GenLocks.v" 2>/dev/null; then mv "$V/coq/gen/GenLocks.v.new" "$V/coq/gen/GenLocks.v"; else rm -f "$V/coq/gen/GenLocks.v.new"; fi
